@@ -39,13 +39,13 @@ def realtty_round(binp, d, speed, nlines, rng):
     sent = b"".join(b"L%06d:%s\n" % (k, b"x" * (k % 61)) for k in range(nlines))
     problem = ""
     try:
-        if not pump(rb"https://127\.0\.0\.1:(\d+)/c", 8):
+        if not pump(rb"https://127\.0\.0\.1:(\d+)/c", 25):
             return {"problem": "harness: the program did not start", "sent": len(sent)}
         port = int(re.search(rb"https://127\.0\.0\.1:(\d+)/c", out).group(1))
         ctx = ssl.create_default_context(); ctx.check_hostname = False; ctx.verify_mode = ssl.CERT_NONE
         c = ctx.wrap_socket(socket.create_connection(("127.0.0.1", port), timeout=5))
         c.sendall(b"POST /io HTTP/1.1\r\nHost: h\r\nTransfer-Encoding: chunked\r\n\r\n")
-        if not pump(rb"ready to go", 5):
+        if not pump(rb"ready to go", 20):
             return {"problem": "harness: the shell did not become ready", "sent": len(sent)}
         pump(None, 0.3)
         mark = len(out)
